@@ -19,6 +19,7 @@ import (
 	"net/url"
 	"os"
 	"runtime"
+	"sort"
 	"strconv"
 	"strings"
 	"sync"
@@ -422,6 +423,10 @@ type fakeConn struct {
 	closes int
 	// buf is the first octet of the buffer the server read a message body into.
 	buf *byte
+	// steps (non-sequential mode): the k-th Read returns at most steps[k mod len]
+	// octets, like a TCP stream that arrives in segments.
+	steps []int
+	step  int
 	// Sequential mode (frames != nil): the client sends frame k+1 only after
 	// frame k is settled (answered, or the server closed the connection), and a
 	// closed connection fails reads and writes like a real one.
@@ -454,6 +459,14 @@ func (c *fakeConn) Read(p []byte) (n int, err error) {
 	}
 	if len(p) > 2 {
 		c.buf = &p[0]
+	}
+	if len(c.steps) > 0 {
+		// The network hands the octets over in segments of these sizes.
+		k := c.steps[c.step%len(c.steps)]
+		c.step++
+		if k < len(p) {
+			p = p[:k]
+		}
 	}
 
 	return c.in.Read(p)
@@ -520,14 +533,64 @@ func (c *fakeConn) SetDeadline(time.Time) error      { return nil }
 func (c *fakeConn) SetReadDeadline(time.Time) error  { return nil }
 func (c *fakeConn) SetWriteDeadline(time.Time) error { return nil }
 
+// qread is the result of one stream.Read call: some data and, next to the last
+// octet of it, possibly an error.
+type qread struct {
+	data []byte
+	err  error
+}
+
+// deadlineErr is what a quic-go stream returns from Read when the read deadline
+// fires, i.e. when the client has sent nothing more (in particular no FIN).
+type deadlineErr struct{}
+
+func (deadlineErr) Error() string   { return "deadline exceeded" }
+func (deadlineErr) Timeout() bool   { return true }
+func (deadlineErr) Temporary() bool { return true }
+func (deadlineErr) Unwrap() error   { return os.ErrDeadlineExceeded }
+
+var _ net.Error = deadlineErr{}
+
+// fakeStream is the client's side of one DoQ stream as the server's Read calls
+// see it: a script of Read results.  A result that is larger than the caller's
+// buffer is handed over in pieces, the error with the last piece; errors are
+// sticky; when the script is exhausted the read deadline fires.
 type fakeStream struct {
 	quic.Stream
-	in     *bytes.Reader
+	reads  []qread
+	pos    int
+	off    int
+	sticky error
 	out    bytes.Buffer
 	closed bool
 }
 
-func (s *fakeStream) Read(p []byte) (int, error) { return s.in.Read(p) }
+// streamOf is the plainest delivery: all octets in one Read, the FIN in the next.
+func streamOf(b []byte) *fakeStream {
+	return &fakeStream{reads: []qread{{data: b}, {err: io.EOF}}}
+}
+
+func (s *fakeStream) Read(p []byte) (n int, err error) {
+	if s.sticky != nil {
+		return 0, s.sticky
+	}
+	if s.pos >= len(s.reads) {
+		s.sticky = deadlineErr{}
+
+		return 0, s.sticky
+	}
+	r := s.reads[s.pos]
+	n = copy(p, r.data[s.off:])
+	s.off += n
+	if s.off < len(r.data) {
+		return n, nil
+	}
+	s.pos, s.off = s.pos+1, 0
+	s.sticky = r.err
+
+	return n, r.err
+}
+
 func (s *fakeStream) Write(p []byte) (int, error) {
 	callNest("write")
 
@@ -606,10 +669,15 @@ type env struct {
 	doq   *dnsserver.ServerQUIC
 	dc    *dnsserver.ServerDNSCrypt
 	hh    http.Handler
+	// dlv, if set, chooses how the octets of the next stream (DoQ, TCP, DoT)
+	// reach the server's Read calls; nil = all at once, then the end of stream.
+	dlv *rand.Rand
+	// dlvEnd >= 0 asks for a particular ending of the next DoQ streams.
+	dlvEnd int
 }
 
 func newEnv() (e *env) {
-	e = &env{h: sharedScript}
+	e = &env{h: sharedScript, dlvEnd: -1}
 	base := func(name string) dnsserver.ConfigBase {
 		return dnsserver.ConfigBase{Name: name, Addr: "127.0.0.1:0", Handler: e.h, Disposer: e.h.adv}
 	}
@@ -631,13 +699,34 @@ func newEnv() (e *env) {
 
 // reset replaces the servers after one of them got stuck.
 func (e *env) reset() {
+	dlv, end := e.dlv, e.dlvEnd
 	*e = *newEnv()
+	e.dlv, e.dlvEnd = dlv, end
 }
+
+// hangs counts the confirmed hangs (watchdog of a minute); theResult is the run's
+// result, for guard to finish early.
+var (
+	hangs     atomic.Int32
+	theResult *hlib.Result
+)
 
 // guard runs f with panic capture and a watchdog: a real accept routine that
 // does not come back within 10 s (a worker died before signalling completion,
 // or a deadlock) is reported instead of hanging the check.
 func guard(limit time.Duration, f func()) (hung bool, panicV any) {
+	if hangs.Load() >= 2 && limit >= 60*time.Second && theResult != nil {
+		// Two confirmed hangs are on record with their inputs; every further one
+		// would cost a minute.  Finish with what has been found.
+		theResult.Notes = append(theResult.Notes, "run ended early: the accept routines hung twice (see the hang-* violations); the remaining campaigns were not run")
+		theResult.Finish()
+		os.Exit(0)
+	}
+	defer func() {
+		if hung && limit >= 60*time.Second {
+			hangs.Add(1)
+		}
+	}()
 	done := make(chan any, 1)
 	go func() {
 		defer func() { done <- recover() }()
@@ -671,6 +760,10 @@ type sees struct {
 	// acceptErr: UDP only, the error the accept step returned to the listener
 	// loop, which ends the loop.
 	acceptErr error
+	// delivery: how the octets reached the server's Read calls (DoQ, TCP, DoT).
+	delivery string
+	// reset: DoQ only, the client reset the stream instead of finishing it.
+	reset bool
 }
 
 const (
@@ -774,6 +867,10 @@ func (e *env) runInner(t string, b []byte, req *dns.Msg, wok bool) (s sees) {
 		unpackAll(c.writes, &s)
 	case "tcp", "dot":
 		c := &fakeConn{in: bytes.NewReader(prefixed(b)), wok: wok}
+		if e.dlv != nil && e.dlv.IntN(2) == 0 {
+			c.steps = genSegments(e.dlv)
+			s.delivery = fmt.Sprintf("segmented: the connection's Read calls return at most %v octets, cyclically", c.steps)
+		}
 		if t == "tcp" {
 			e.plain.VerifC01ServeTCPConn(ctx, c)
 		} else {
@@ -801,13 +898,19 @@ func (e *env) runInner(t string, b []byte, req *dns.Msg, wok bool) (s sees) {
 			unpackAll([][]byte{w.Body.Bytes()}, &s)
 		}
 	case "doq":
-		ps := &fakeStream{in: bytes.NewReader(prefixed(poison))}
+		ps := streamOf(prefixed(poison))
 		saved := e.h.o
 		e.h.set(outcome{kind: "wrote"})
 		_ = e.doq.VerifC01ServeQUICStream(ps, &fakeQUICConn{})
 		e.h.set(saved)
 		e.h.adv.begin()
-		st := &fakeStream{in: bytes.NewReader(prefixed(b))}
+		st := streamOf(prefixed(b))
+		if e.dlv != nil {
+			d := genDelivery(e.dlv, prefixed(b), e.dlvEnd)
+			st = &fakeStream{reads: d.reads}
+			s.delivery = d.String()
+			s.reset = strings.Contains(d.class, "reset")
+		}
 		qc := &fakeQUICConn{}
 		_ = e.doq.VerifC01ServeQUICStream(st, qc)
 		s.status = stOpen
@@ -1221,6 +1324,196 @@ func genWire(rng *rand.Rand, r *hlib.Result) (b []byte, kind string) {
 	return b, kind
 }
 
+// ---------------------------------------------------------------------------
+// Delivery: how a stream's octets reach the server's Read calls
+
+// delivery is one way the octets of a DoQ stream reach the server: the results
+// of the successive Read calls.
+type delivery struct {
+	class string
+	reads []qread
+}
+
+func errToken(err error) string {
+	switch {
+	case err == nil:
+		return "nil"
+	case err == io.EOF:
+		return "eof"
+	default:
+		return "other"
+	}
+}
+
+// String is the replayable description: the size and error of every Read result.
+func (d delivery) String() string {
+	parts := make([]string, 0, len(d.reads))
+	for _, r := range d.reads {
+		e := ""
+		switch {
+		case r.err == io.EOF:
+			e = "+FIN"
+		case r.err != nil:
+			e = fmt.Sprintf("+error(%v)", r.err)
+		}
+		parts = append(parts, fmt.Sprintf("%d%s", len(r.data), e))
+	}
+	end := ""
+	if len(d.reads) == 0 || d.reads[len(d.reads)-1].err == nil {
+		end = ", then nothing until the read deadline"
+	}
+
+	return fmt.Sprintf("%s: Read results (octets) %s%s", d.class, strings.Join(parts, ", "), end)
+}
+
+// modelArgs renders the script for the model's quicread op.
+func (d delivery) modelArgs() string {
+	var sb strings.Builder
+	for _, r := range d.reads {
+		h := "-"
+		if len(r.data) > 0 {
+			h = hex.EncodeToString(r.data)
+		}
+		sb.WriteString(" ; " + h + " " + errToken(r.err))
+	}
+
+	return sb.String()
+}
+
+// bytes is what the script delivers before its first error.
+func (d delivery) bytes() (b []byte) {
+	for _, r := range d.reads {
+		b = append(b, r.data...)
+		if r.err != nil {
+			break
+		}
+	}
+
+	return b
+}
+
+// genCuts cuts b into Read results: whole, at the boundaries of the framing
+// (inside and right after the length prefix, around the header), at random
+// places, or octet by octet.
+func genCuts(rng *rand.Rand, b []byte) (chunks [][]byte, how string) {
+	n := len(b)
+	var cuts []int
+	switch x := rng.IntN(10); {
+	case x < 3 || n < 2:
+		how = "whole"
+	case x < 5:
+		how = "cut-at-framing"
+		for _, c := range []int{1, 2, 3, 13, 14, n - 1} {
+			if c > 0 && c < n && rng.IntN(2) == 0 {
+				cuts = append(cuts, c)
+			}
+		}
+	case x < 9 || n > 48:
+		how = "cut-at-random"
+		for k := 1 + rng.IntN(5); k > 0; k-- {
+			cuts = append(cuts, 1+rng.IntN(n-1))
+		}
+	default:
+		how = "octet-by-octet"
+		for c := 1; c < n; c++ {
+			cuts = append(cuts, c)
+		}
+	}
+	sort.Ints(cuts)
+	prev := 0
+	for _, c := range cuts {
+		if c > prev {
+			chunks = append(chunks, b[prev:c])
+			prev = c
+		}
+	}
+	chunks = append(chunks, b[prev:])
+
+	return chunks, how
+}
+
+// genDelivery chooses how stream reaches the server: the cuts, and what follows
+// the last octet - the FIN in a Read of its own (end 0), the FIN together with
+// it (1), nothing (2: the client does not close its side; the read deadline
+// fires), or a reset of the stream (3, 4); end < 0: any.
+func genDelivery(rng *rand.Rand, stream []byte, end int) (d delivery) {
+	chunks, how := genCuts(rng, stream)
+	for _, c := range chunks {
+		d.reads = append(d.reads, qread{data: c})
+	}
+	if rng.IntN(12) == 0 {
+		// A Read that returns nothing and no error.
+		k := rng.IntN(len(d.reads) + 1)
+		d.reads = append(d.reads[:k], append([]qread{{}}, d.reads[k:]...)...)
+		how += ",empty-read"
+	}
+	last := &d.reads[len(d.reads)-1]
+	x := rng.IntN(10)
+	if end >= 0 {
+		// A particular ending is asked for.
+		x = []int{0, 3, 6, 8, 9}[end%5]
+	}
+	switch {
+	case x < 3:
+		d.reads = append(d.reads, qread{err: io.EOF})
+		d.class = how + ",fin-own-read"
+	case x < 6:
+		last.err = io.EOF
+		d.class = how + ",fin-with-data"
+	case x < 8:
+		d.class = how + ",no-fin"
+	case x < 9:
+		d.reads = append(d.reads, qread{err: &quic.StreamError{StreamID: 0, ErrorCode: 0x5, Remote: true}})
+		d.class = how + ",reset-own-read"
+	default:
+		last.err = &quic.StreamError{StreamID: 0, ErrorCode: 0x5, Remote: true}
+		d.class = how + ",reset-with-data"
+	}
+
+	return d
+}
+
+// genSegments chooses the sizes of the TCP segments a connection's octets arrive in.
+func genSegments(rng *rand.Rand) (steps []int) {
+	for k := 1 + rng.IntN(3); k > 0; k-- {
+		steps = append(steps, pick(rng, []int{1, 1, 2, 3, 5, 11, 12, 13, 64, 511, 512, 513}))
+	}
+
+	return steps
+}
+
+// paddedQuery returns a well-formed single-question query of exactly size
+// octets, reached with an EDNS padding option.
+func paddedQuery(rng *rand.Rand, size int) (b []byte) {
+	pad := &dns.EDNS0_PADDING{}
+	m := &dns.Msg{}
+	m.SetQuestion(genName(rng), pick(rng, []uint16{dns.TypeA, dns.TypeAAAA, dns.TypeHTTPS, dns.TypeTXT}))
+	m.Id = uint16(rng.IntN(65536))
+	m.RecursionDesired = true
+	m.Extra = []dns.RR{&dns.OPT{Hdr: dns.RR_Header{Name: ".", Rrtype: dns.TypeOPT, Class: 4096}, Option: []dns.EDNS0{pad}}}
+	base, err := m.Pack()
+	hlib.Must(err)
+	if size < len(base) {
+		return base
+	}
+	pad.Padding = make([]byte, size-len(base))
+	b, err = m.Pack()
+	hlib.Must(err)
+
+	return b
+}
+
+// doqBuf is the DoQ server's read buffer (quicBytePoolSize): room for the two
+// length octets and the largest message they can announce, which TCP, DoT and
+// DoH take as well.  doqLegacyRoom is the largest message that fitted the buffer
+// of dns.MaxMsgSize octets the code had before the fix; the sizes around it stay
+// in every generator, and the oracle keeps its signature for a query beyond it
+// that is refused.
+const (
+	doqBuf        = dns.MaxMsgSize + 2
+	doqLegacyRoom = dns.MaxMsgSize - 2
+)
+
 func genOutcome(rng *rand.Rand) outcome {
 	switch x := rng.IntN(20); {
 	case x < 11:
@@ -1272,12 +1565,16 @@ type caseInfo struct {
 	Outcome   string `json:"handler_outcome"`
 	WriteOK   bool   `json:"socket_writes_succeed"`
 	Observed  string `json:"observed"`
+	// Delivery: how the octets reached the server's Read calls (DoQ: the results
+	// of the successive stream.Read calls; TCP/DoT: segment sizes); empty = all
+	// at once, followed by the end of the stream.
+	Delivery string `json:"delivery,omitempty"`
 }
 
 // oracle checks one observation against the property statement.  It returns the
 // core of the delivered answer for the cross-transport comparison.
 func oracle(r *hlib.Result, t string, b []byte, req *dns.Msg, o outcome, wok bool, s sees, calls int64) (core string) {
-	ci := caseInfo{Transport: t, WireHex: hex.EncodeToString(b), Outcome: o.String(), WriteOK: wok, Observed: canonSees(s, "-")}
+	ci := caseInfo{Transport: t, WireHex: hex.EncodeToString(b), Outcome: o.String(), WriteOK: wok, Observed: canonSees(s, "-"), Delivery: s.delivery}
 	cls := classify(req)
 	if s.hung {
 		r.Violate("hang-"+t, t+": the accept routine never completed this request (worker died before signalling completion, or deadlock)", ci)
@@ -1320,6 +1617,22 @@ func oracle(r *hlib.Result, t string, b []byte, req *dns.Msg, o outcome, wok boo
 		case cls == "ok" && len(m.Question) != 1:
 			r.Violate("question-missing-"+t, t+": accepted query answered without its question", ci)
 		}
+	}
+	if t == "doq" && s.reset && len(s.msgs) == 0 {
+		// The client cancelled the stream instead of finishing it: it does not wait
+		// for an answer, and the property does not say it must get one.  (The code
+		// answers a complete query all the same; the model comparison holds it to that.)
+		return ""
+	}
+	// 1a. Repaired finding, signature kept armed: a read buffer of dns.MaxMsgSize
+	// octets has no room for the two length octets next to the two largest
+	// messages a prefix can announce; the stream got DOQ_PROTOCOL_ERROR instead of
+	// an answer.
+	if t == "doq" && cls == "ok" && !doqKA && len(b) > doqLegacyRoom && len(s.msgs) == 0 && s.status == stProtoErr && calls == 0 {
+		r.Violate("doq-max-size-query-rejected", fmt.Sprintf("doq: a well-formed single-question query of %d octets (TCP, DoT and DoH answer it) is refused with DOQ_PROTOCOL_ERROR: "+
+			"the read buffer has to hold the 2-octet length prefix as well as a message of up to %d octets; with quicBytePoolSize = dns.MaxMsgSize messages longer than %d octets never fit", len(b), dns.MaxMsgSize, doqLegacyRoom), ci)
+
+		return ""
 	}
 	// 2. Not acceptable: documented treatment, handler never consulted.
 	if cls != "ok" || doqKA {
@@ -1459,6 +1772,58 @@ func effective(t string, b []byte) []byte {
 	return b
 }
 
+// runOne sends b over transport t: real code, property oracle, and the line for
+// the model comparison.  It returns the core of the delivered answer.
+func runOne(e *env, r *hlib.Result, t string, b []byte, req *dns.Msg, o outcome, wokRoll int, ps *[]pending) (core string) {
+	// eb: the bytes the transport's framing hands to Unpack.
+	eb := effective(t, b)
+	treq := req
+	if len(eb) != len(b) {
+		treq = unpackOrNil(eb)
+	}
+	if len(eb) != len(b) {
+		checkUnpackContract(r, eb, treq)
+	}
+	if t == "udp" && len(eb) < 12 {
+		// readUDPMsg drops datagrams shorter than a header before Unpack.
+		treq = nil
+	}
+	wok := true
+	if (t == "udp" || t == "tcp" || t == "dot") && wokRoll == 0 {
+		wok = false
+		r.Count("socket-write-fails")
+	}
+	e.h.set(o)
+	s := e.run(t, b, treq, wok)
+	calls := e.h.calls.Load()
+	if s.delivery != "" {
+		for _, part := range strings.Split(strings.SplitN(s.delivery, ":", 2)[0], ",") {
+			r.Count("delivery:" + t + ":" + part)
+		}
+	}
+	// Property oracle first, model comparison afterwards.
+	core = oracle(r, t, eb, treq, o, wok, s, calls)
+	mo := o
+	if !wok && o.kind == "wrote" {
+		// The scripted handler returns the write error (handler contract).
+		mo = outcome{kind: "wrotefailed", rcode: o.rcode, n: o.n, ne: false}
+	}
+	if (t == "dcudp" || t == "dctcp") && treq == nil {
+		return core
+	}
+	ub := eb
+	if (t == "udp" || t == "doq") && len(eb) < 12 || t == "doq" && len(eb)+2 > doqBuf {
+		// Dropped by the framing: nothing is handed to Unpack.
+		ub = nil
+	}
+	real := fmt.Sprintf("%d %s %s w1 ", s.status, hdrID(ub), goQParse(ub)) + strings.SplitN(canonSees(s, "-"), " ", 3)[2]
+	ci := caseInfo{Transport: t, WireHex: hex.EncodeToString(b), Outcome: o.String(), WriteOK: wok, Observed: real, Delivery: s.delivery}
+	*ps = append(*ps, pending{line: modelLine(t, wok, b, treq, mo), real: real, ci: ci})
+	r.Traces++
+
+	return core
+}
+
 func runCase(e *env, r *hlib.Result, b []byte, kind string, o outcome, wokRoll int, ps *[]pending) {
 	req := unpackOrNil(b)
 	cls := classify(req)
@@ -1471,49 +1836,9 @@ func runCase(e *env, r *hlib.Result, b []byte, kind string, o outcome, wokRoll i
 	canon := hex.EncodeToString(b) + " " + o.String()
 	checkUnpackContract(r, b, req)
 	for _, t := range transports {
-		// eb: the bytes the transport's framing hands to Unpack.
-		eb := effective(t, b)
-		treq := req
-		if len(eb) != len(b) {
-			treq = unpackOrNil(eb)
-		}
-		if len(eb) != len(b) {
-			checkUnpackContract(r, eb, treq)
-		}
-		if t == "udp" && len(eb) < 12 {
-			// readUDPMsg drops datagrams shorter than a header before Unpack.
-			treq = nil
-		}
-		wok := true
-		if (t == "udp" || t == "tcp" || t == "dot") && wokRoll == 0 {
-			wok = false
-			r.Count("socket-write-fails")
-		}
-		e.h.set(o)
-		s := e.run(t, b, treq, wok)
-		calls := e.h.calls.Load()
-		// Property oracle first, model comparison afterwards.
-		core := oracle(r, t, eb, treq, o, wok, s, calls)
-		if core != "" {
+		if core := runOne(e, r, t, b, req, o, wokRoll, ps); core != "" {
 			cores[t] = core
 		}
-		mo := o
-		if !wok && o.kind == "wrote" {
-			// The scripted handler returns the write error (handler contract).
-			mo = outcome{kind: "wrotefailed", rcode: o.rcode, n: o.n, ne: false}
-		}
-		if (t == "dcudp" || t == "dctcp") && treq == nil {
-			continue
-		}
-		ub := eb
-		if (t == "udp" || t == "doq") && len(eb) < 12 {
-			// Dropped by the framing: nothing is handed to Unpack.
-			ub = nil
-		}
-		real := fmt.Sprintf("%d %s %s w1 ", s.status, hdrID(ub), goQParse(ub)) + strings.SplitN(canonSees(s, "-"), " ", 3)[2]
-		ci := caseInfo{Transport: t, WireHex: hex.EncodeToString(b), Outcome: o.String(), WriteOK: wok, Observed: real}
-		*ps = append(*ps, pending{line: modelLine(t, wok, b, treq, mo), real: real, ci: ci})
-		r.Traces++
 	}
 	// Cross-transport identity of the delivered core.
 	ref, refT := "", ""
@@ -1553,6 +1878,24 @@ func wireCampaign(o *hlib.Opts, r *hlib.Result, m *hlib.Model, e *env) {
 			ps = ps[:0]
 		}
 	}
+	// Size classes: well-formed queries padded to the sizes around every read
+	// buffer of the accept paths (UDP 512, the DoQ buffer with and without room
+	// for the length prefix, the largest message a prefix can announce).
+	reps := 1
+	if o.Thorough() {
+		reps = 8
+	}
+	for rep := 0; rep < reps; rep++ {
+		for _, sz := range []int{511, 512, 513, 1232, 4096, 16384, doqLegacyRoom - 2, doqLegacyRoom - 1, doqLegacyRoom, dns.MaxMsgSize - 1, dns.MaxMsgSize} {
+			oc := outcome{kind: "wrote", rcode: 0, n: 1 + rng.IntN(3)}
+			if rng.IntN(4) == 0 {
+				oc = genOutcome(rng)
+			}
+			runCase(e, r, paddedQuery(rng, sz), fmt.Sprintf("padded-to-%d", sz), oc, 1, &ps)
+		}
+		flush(r, m, ps)
+		ps = ps[:0]
+	}
 	// Boundary corpus: always run.
 	for _, hx := range []string{
 		"", "00", "abcd01000001000000000000", "abcd81000001000000000000", "abcd01000000000000000000",
@@ -1566,6 +1909,57 @@ func wireCampaign(o *hlib.Opts, r *hlib.Result, m *hlib.Model, e *env) {
 		b, _ := hex.DecodeString(hx)
 		for _, oc := range []outcome{{kind: "wrote", n: 1}, {kind: "silent"}, {kind: "failed", ne: true}} {
 			runCase(e, r, b, "corpus", oc, 1, &ps)
+		}
+	}
+	flush(r, m, ps)
+}
+
+// doqDeliveryCampaign: the DoQ reader does not see a byte string but the results
+// of successive Read calls.  Every stream - complete queries of ordinary size and
+// at the size boundary of the read buffer, rejected and malformed messages - is
+// delivered in every way the transport can deliver it: cut anywhere (also inside
+// the length prefix), with the FIN next to the last data or in a Read of its
+// own, without a FIN before the read deadline, or ended by a reset.  The answer
+// must be the one the query gets on any other transport (same oracle, same model
+// line: the model's verdict does not depend on the delivery, which is a theorem).
+func doqDeliveryCampaign(o *hlib.Opts, r *hlib.Result, m *hlib.Model, e *env) {
+	rng := o.Rand("doqdelivery")
+	n := 1500
+	if o.Thorough() {
+		n = 60000
+	}
+	savedDlv := e.dlv
+	defer func() { e.dlv = savedDlv }()
+	e.dlv = rng
+	var ps []pending
+	one := func(b []byte, kind string, oc outcome) {
+		req := unpackOrNil(b)
+		checkUnpackContract(r, b, req)
+		r.Count("doqdelivery:" + kind)
+		runOne(e, r, "doq", b, req, oc, 1, &ps)
+		r.Case("doqdelivery "+hex.EncodeToString(b)+" "+oc.String()+" "+ps[len(ps)-1].ci.Delivery, true)
+		if len(ps) > 2000 {
+			flush(r, m, ps)
+			ps = ps[:0]
+		}
+	}
+	for i := 0; i < n; i++ {
+		b, kind := genWire(rng, r)
+		one(b, kind, genOutcome(rng))
+	}
+	// The size boundary of the read buffer, every ending, whole and cut.
+	reps := 2
+	if o.Thorough() {
+		reps = 12
+	}
+	for rep := 0; rep < reps; rep++ {
+		for _, sz := range []int{doqLegacyRoom, doqLegacyRoom + 1, dns.MaxMsgSize - 1, dns.MaxMsgSize} {
+			b := paddedQuery(rng, sz)
+			for k := 0; k < 5; k++ {
+				e.dlvEnd = k
+				one(b, fmt.Sprintf("padded-to-%d", sz), outcome{kind: "wrote", n: 1})
+			}
+			e.dlvEnd = -1
 		}
 	}
 	flush(r, m, ps)
@@ -1867,7 +2261,9 @@ func jsonCampaign(o *hlib.Opts, r *hlib.Result, m *hlib.Model, e *env) {
 	r.ModelOps += len(lines)
 }
 
-// quicFrameCampaign: readQUICMsg hands Unpack exactly the bytes of its own stream.
+// quicFrameCampaign: readQUICMsg hands Unpack exactly the bytes of its own
+// stream - whatever the pooled buffer held, however the stream's octets were cut
+// into Read results and however the stream ended after them.
 func quicFrameCampaign(o *hlib.Opts, r *hlib.Result, m *hlib.Model, e *env) {
 	rng := o.Rand("quicframe")
 	n := 4000
@@ -1881,6 +2277,67 @@ func quicFrameCampaign(o *hlib.Opts, r *hlib.Result, m *hlib.Model, e *env) {
 	}
 	var reals []obs
 	ctx := context.Background()
+	one := func(stream []byte, kind string, end int) {
+		d := genDelivery(rng, stream, end)
+		// Poison the pooled buffer, then read the stream under test.
+		var got *dns.Msg
+		hung, pv := guard(60*time.Second, func() {
+			_, _ = e.doq.VerifC01ReadQUICMsg(ctx, streamOf(prefixed(poison)))
+			var err error
+			got, err = e.doq.VerifC01ReadQUICMsg(ctx, &fakeStream{reads: d.reads})
+			if err != nil {
+				got = nil
+			}
+		})
+		shown := hex.EncodeToString(stream)
+		if len(shown) > 600 {
+			shown = shown[:600] + fmt.Sprintf("… (%d octets; zero padding up to the end)", len(stream))
+		}
+		ci := map[string]any{"transport": "doq-framing", "previous_stream_hex": hex.EncodeToString(prefixed(poison))[:80] + "…",
+			"stream_hex": shown, "kind": kind, "delivery": d.String()}
+		if hung || pv != nil {
+			r.Violate("panic-doq", fmt.Sprintf("DoQ framing: reader hung=%v panic=%v", hung, pv), ci)
+			if hung {
+				e.reset()
+			}
+
+			return
+		}
+		// Oracle: the decoded message is a function of the stream's own bytes, and
+		// a stream that carries exactly one length-prefixed message decodes to it.
+		var own *dns.Msg
+		framed := len(stream) >= 12 && int(binary.BigEndian.Uint16(stream)) == len(stream)-2
+		if framed {
+			own = unpackOrNil(stream[2:])
+		}
+		switch {
+		case len(stream) > doqBuf && !framed:
+			// More octets than the server has room for and not one message: all the
+			// property asks is that what the server decodes, if anything, is the
+			// message the length prefix delimits.
+			if l := int(binary.BigEndian.Uint16(stream)); got != nil {
+				if want := unpackOrNil(stream[2:min(2+l, len(stream))]); want == nil || want.String() != got.String() {
+					r.Violate("doq-frame-not-own-bytes", "DoQ framing: the server decoded something else than the message the stream's length prefix delimits", ci)
+				}
+			}
+		case own != nil && got == nil && len(stream)-2 > doqLegacyRoom:
+			r.Violate("doq-max-size-query-rejected", fmt.Sprintf("DoQ framing: a stream carrying one well-formed message of %d octets is refused: the read buffer has to hold the 2-octet length prefix "+
+				"as well as a message of up to %d octets; with quicBytePoolSize = dns.MaxMsgSize messages longer than %d octets never fit (TCP, DoT and DoH take them)", len(stream)-2, dns.MaxMsgSize, doqLegacyRoom), ci)
+		case own != nil && got == nil && strings.Contains(d.class, "reset"):
+			// The client cancelled the stream: not decoding it is not against the property.
+		case (own == nil) != (got == nil):
+			r.Violate("doq-frame-not-own-bytes", fmt.Sprintf("DoQ framing: stream decodes=%v from its own bytes but the server decoded=%v", own != nil, got != nil), ci)
+		case own != nil && own.String() != got.String():
+			r.Violate("doq-frame-not-own-bytes", fmt.Sprintf("DoQ framing: server decoded %q, the stream's own bytes say %q", got.String(), own.String()), ci)
+		}
+		r.Count("quicframe:" + kind)
+		for _, part := range strings.Split(d.class, ",") {
+			r.Count("quicframe-delivery:" + part)
+		}
+		lines = append(lines, "quicread -"+d.modelArgs())
+		reals = append(reals, obs{msg: got, ci: ci})
+		r.Case(lines[len(lines)-1], kind != "wellformed")
+	}
 	for i := 0; i < n; i++ {
 		b, kind := genWire(rng, r)
 		stream := prefixed(b)
@@ -1899,41 +2356,27 @@ func quicFrameCampaign(o *hlib.Opts, r *hlib.Result, m *hlib.Model, e *env) {
 				kind = "header-only"
 			}
 		}
-		// Poison the pooled buffer, then read the stream under test.
-		var got *dns.Msg
-		hung, pv := guard(60*time.Second, func() {
-			_, _ = e.doq.VerifC01ReadQUICMsg(ctx, &fakeStream{in: bytes.NewReader(prefixed(poison))})
-			var err error
-			got, err = e.doq.VerifC01ReadQUICMsg(ctx, &fakeStream{in: bytes.NewReader(stream)})
-			if err != nil {
-				got = nil
+		one(stream, kind, -1)
+	}
+	// The size boundaries of the pooled read buffer - the largest message a prefix
+	// can announce, which fills it exactly, and the sizes around the 65533 octets
+	// that were all the buffer had room for before the fix - each with every
+	// ending; and streams that go on beyond the message or the buffer.
+	reps := 1
+	if o.Thorough() {
+		reps = 10
+	}
+	for rep := 0; rep < reps; rep++ {
+		for _, sz := range []int{doqLegacyRoom - 1, doqLegacyRoom, doqLegacyRoom + 1, dns.MaxMsgSize} {
+			stream := prefixed(paddedQuery(rng, sz))
+			for end := 0; end < 5; end++ {
+				one(stream, fmt.Sprintf("padded-to-%d", sz), end)
 			}
-		})
-		if hung || pv != nil {
-			r.Violate("panic-doq", fmt.Sprintf("DoQ framing: reader hung=%v panic=%v", hung, pv), map[string]any{"stream_hex": hex.EncodeToString(stream)})
-			if hung {
-				e.reset()
-			}
-
-			continue
 		}
-		ci := map[string]any{"transport": "doq-framing", "previous_stream_hex": hex.EncodeToString(prefixed(poison))[:80] + "…",
-			"stream_hex": hex.EncodeToString(stream), "kind": kind}
-		// Oracle: the decoded message is a function of the stream's own bytes.
-		var own *dns.Msg
-		if len(stream) >= 12 && int(binary.BigEndian.Uint16(stream)) == len(stream)-2 {
-			own = unpackOrNil(stream[2:])
-		}
-		switch {
-		case (own == nil) != (got == nil):
-			r.Violate("doq-frame-not-own-bytes", fmt.Sprintf("DoQ framing: stream decodes=%v from its own bytes but the server decoded=%v", own != nil, got != nil), ci)
-		case own != nil && own.String() != got.String():
-			r.Violate("doq-frame-not-own-bytes", fmt.Sprintf("DoQ framing: server decoded %q, the stream's own bytes say %q", got.String(), own.String()), ci)
-		}
-		r.Count("quicframe:" + kind)
-		lines = append(lines, fmt.Sprintf("quic 0 - %s", hex.EncodeToString(stream)))
-		reals = append(reals, obs{msg: got, ci: ci})
-		r.Case(lines[len(lines)-1], kind != "wellformed")
+		one(append(prefixed(paddedQuery(rng, doqLegacyRoom)), byte(rng.IntN(256))), "65533-octet-message-then-extra-byte", -1)
+		one(append(prefixed(paddedQuery(rng, dns.MaxMsgSize)), byte(rng.IntN(256))), "full-buffer-then-extra-byte", -1)
+		long := append(prefixed(paddedQuery(rng, 300+rng.IntN(300))), make([]byte, dns.MaxMsgSize)...)
+		one(long, "message-then-64k-garbage", -1)
 	}
 	for i, a := range m.Batch(lines) {
 		var mm *dns.Msg
@@ -1942,7 +2385,11 @@ func quicFrameCampaign(o *hlib.Opts, r *hlib.Result, m *hlib.Model, e *env) {
 			mm = unpackOrNil(pb)
 		}
 		if (mm == nil) != (reals[i].msg == nil) || (mm != nil && mm.String() != reals[i].msg.String()) {
-			r.Disagree("quic-frame", fmt.Sprintf("model payload %q decodes differently from the implementation's message for %s", a, lines[i]), reals[i].ci)
+			line := lines[i]
+			if len(line) > 600 {
+				line = line[:600] + "…"
+			}
+			r.Disagree("quic-frame", fmt.Sprintf("model payload decodes differently from the implementation's message (model %d hex digits, implementation decoded=%v) for %s", len(a), reals[i].msg != nil, line), reals[i].ci)
 		}
 	}
 	r.ModelOps += len(lines)
@@ -1988,6 +2435,10 @@ func pipelineCampaign(o *hlib.Opts, r *hlib.Result, e *env) {
 		}
 		t := pick(rng, []string{"tcp", "dot"})
 		c := &fakeConn{in: bytes.NewReader(in), wok: true}
+		if rng.IntN(2) == 0 {
+			// The pipelined stream arrives in segments that ignore the framing.
+			c.steps = genSegments(rng)
+		}
 		e.h.set(outcome{kind: "wrote", rcode: 0, n: 1})
 		ctx := context.Background()
 		e.h.adv.begin()
@@ -2009,7 +2460,7 @@ func pipelineCampaign(o *hlib.Opts, r *hlib.Result, e *env) {
 		c.mu.Lock()
 		splitPrefixed(c.out.Bytes(), &s)
 		c.mu.Unlock()
-		ci := map[string]any{"transport": t, "stream_hex": hex.EncodeToString(in), "observed": canonSees(s, "-")}
+		ci := map[string]any{"transport": t, "stream_hex": hex.EncodeToString(in), "observed": canonSees(s, "-"), "read_calls_return_at_most": c.steps}
 		if s.damaged != "" {
 			r.Violate("concurrent-response-damaged-"+t, "pipelined "+t+" with the Disposer's pools shared (production set-up): "+s.damaged, ci)
 		}
@@ -2420,7 +2871,7 @@ func bufferCampaign(o *hlib.Opts, r *hlib.Result, e *env) {
 					splitPrefixed(c.out.Bytes(), &got)
 					nbuf = c.buf
 				default:
-					st := &fakeStream{in: bytes.NewReader(prefixed(nb))}
+					st := streamOf(prefixed(nb))
 					_ = e.doq.VerifC01ServeQUICStream(st, &fakeQUICConn{})
 					splitPrefixed(st.out.Bytes(), &got)
 				}
@@ -2453,7 +2904,7 @@ func bufferCampaign(o *hlib.Opts, r *hlib.Result, e *env) {
 					s.status = stOpen
 					splitPrefixed(c.out.Bytes(), &s)
 				default:
-					st := &fakeStream{in: bytes.NewReader(prefixed(b))}
+					st := streamOf(prefixed(b))
 					outerBuf = func() *byte { return nil }
 					_ = e.doq.VerifC01ServeQUICStream(st, &fakeQUICConn{})
 					s.status, s.fin = stOpen, st.closed
@@ -2577,6 +3028,7 @@ func liveCampaign(o *hlib.Opts, r *hlib.Result) {
 func main() {
 	o := hlib.ParseFlags()
 	r := hlib.NewResult("C01", o)
+	theResult = r
 	r.Rule = "wire: generated DNS messages (well-formed queries with every header field, section count, name shape, " +
 		"qtype/qclass and EDNS option varied, plus a malformed stream) x scripted handler outcomes are sent through the " +
 		"real UDP, TCP, DoT, DoH GET/POST, DoQ and DNSCrypt accept paths with fake sockets; what the client sees is compared " +
@@ -2590,7 +3042,10 @@ func main() {
 		"the first question is compared with miekg's Unpack on every line (the UnpackOK contract of the wire-level theorems); " +
 		"whole TCP/DoT connections (frames sent one after the other, mixed accepted/rejected/ignored/undecodable/unanswered) and whole UDP listener loops " +
 		"(datagrams, short datagrams, timeouts, critical errors) are compared with serveConn/udpLoop, and no client input may make the accept step return an error; " +
-		"DoQ streams must be finished by the server; the JSON API is driven in both encodings (JSON and ct=application/dns-message); " +
+		"DoQ streams must be finished by the server; every DoQ stream reaches the real reader as a script of stream.Read results (cut at the framing boundaries, at random or octet by octet, empty reads; " +
+		"FIN next to the last data, in a Read of its own, no FIN before the read deadline, or a reset) and TCP/DoT streams arrive in segments that ignore the framing - the answer must not depend on it; " +
+		"queries padded to the sizes around every read buffer (511..513, 1232, 4096, 16384, 65531..65535 octets) go through every transport, and the DoQ reader is compared with the model's readAll on explicit Read scripts, " +
+		"also at the size boundary of its buffer with every ending; the JSON API is driven in both encodings (JSON and ct=application/dns-message); " +
 		"byte-buffer adversary: with GOMAXPROCS(1) a concurrent client's request is served inside the handler and inside the socket write of the request under test, " +
 		"so a pooled request/response buffer released before its last use is overwritten (foreign id/question/garbled frame) or seen recycled in flight; " +
 		"a case is non-trivial unless it is a well-formed accepted query answered normally; distinct = distinct (wire, outcome)"
@@ -2600,9 +3055,11 @@ func main() {
 	os.Setenv("VERBOSE", "0")
 
 	e := newEnv()
+	e.dlv = o.Rand("delivery")
 	acceptCampaign(r, m)
 	gridCampaign(o, r, m, e)
 	wireCampaign(o, r, m, e)
+	doqDeliveryCampaign(o, r, m, e)
 	jsonCampaign(o, r, m, e)
 	quicFrameCampaign(o, r, m, e)
 	pipelineCampaign(o, r, e)
